@@ -50,6 +50,7 @@ import (
 	"golang.org/x/sys/unix"
 	"gopkg.in/ini.v1"
 
+	"chainguard.dev/apko/internal/verifhook"
 	"chainguard.dev/apko/pkg/apk/auth"
 	"chainguard.dev/apko/pkg/apk/expandapk"
 	apkfs "chainguard.dev/apko/pkg/apk/fs"
@@ -976,11 +977,13 @@ func (a *APK) cachePackage(ctx context.Context, pkg InstallablePackage, exp *exp
 	ctlHex := hex.EncodeToString(exp.ControlHash)
 	ctlDst := filepath.Join(cacheDir, ctlHex+".ctl.tar.gz")
 
+	verifhook.Point("pkg.begin " + cacheDir)
 	if err := paths.AdvertiseCachedFile(exp.ControlFile, ctlDst); err != nil {
 		return nil, err
 	}
 
 	exp.ControlFile = ctlDst
+	verifhook.Point("pkg.ctl " + cacheDir)
 
 	if exp.SignatureFile != "" {
 		sigDst := filepath.Join(cacheDir, ctlHex+".sig.tar.gz")
@@ -990,6 +993,7 @@ func (a *APK) cachePackage(ctx context.Context, pkg InstallablePackage, exp *exp
 		}
 
 		exp.SignatureFile = sigDst
+		verifhook.Point("pkg.sig " + cacheDir)
 	}
 
 	datHex := hex.EncodeToString(exp.PackageHash)
@@ -1000,6 +1004,7 @@ func (a *APK) cachePackage(ctx context.Context, pkg InstallablePackage, exp *exp
 	}
 
 	exp.PackageFile = datDst
+	verifhook.Point("pkg.dat " + cacheDir)
 
 	if err := exp.TarFS.Close(); err != nil {
 		return nil, fmt.Errorf("closing tarfs: %w", err)
@@ -1012,6 +1017,7 @@ func (a *APK) cachePackage(ctx context.Context, pkg InstallablePackage, exp *exp
 	}
 
 	exp.TarFile = tarDst
+	verifhook.Point("pkg.tar " + cacheDir)
 
 	// Re-initialize the tarfs with the renamed file.
 	// TODO: Split out the tarfs Index creation from the FS.
